@@ -224,6 +224,23 @@ func c19r2(c *Ctx) {
 				if vs, isDecl := m.AST.(*ast.ValueSpec); isDecl && len(vs.Values) == 0 {
 					continue
 				}
+				// (nor does a statement that only overwrites it as a whole: the zero a helper's failure return leaves)
+				if as, isAssign := m.AST.(*ast.AssignStmt); isAssign {
+					readsIt := false
+					for _, r := range as.Rhs {
+						if f.MentionsObj(r, false, blk) {
+							readsIt = true
+						}
+					}
+					for _, l := range as.Lhs {
+						if _, isID := ast.Unparen(l).(*ast.Ident); !isID && f.MentionsObj(l, false, blk) {
+							readsIt = true
+						}
+					}
+					if !readsIt {
+						continue
+					}
+				}
 				// reached from this lookup without re-definition?
 				isFromHere := false
 				for _, d := range ReachingDefs(f, blk, m) {
